@@ -162,6 +162,26 @@ def corr(ctx):
     x = signal((3, 7), True, 1.0); nz = signal((3, 7), True, 0.3)
     ok = bool((AWGNChannel(avg_noise_power=1.0)(x, noise=nz) == x + nz).all())
     ops.append(Op("snrp 1 0", "1", nontrivial=False, info={"site": "channels:AWGNChannel", "config": {"mode": "pregenerated"}}, prop_ok=ok))
+    # supplied noise of another dtype / kind than the signal: the output is x + noise as torch adds them (nothing rounded or dropped)
+    from kaira.channels.analog import FlatFadingChannel
+    g = lambda n, dt: torch.tensor([ctx.rng.gauss(0, 1) for _ in range(n)], dtype=dt)
+    for sdt, ndt, tag in ((torch.float32, torch.float64, "float32 signal, float64 noise"), (torch.complex64, torch.complex128, "complex64 signal, complex128 noise"),
+                          (torch.float32, torch.complex64, "real signal, complex noise"), (torch.float64, torch.float32, "float64 signal, float32 noise")):
+        mk = lambda dt: (torch.complex(g(12, torch.float64), g(12, torch.float64)).to(dt) if dt.is_complex else g(12, dt)).reshape(2, 6)
+        x, nz = mk(sdt), mk(ndt) * (1 + 2 ** -30)
+        y = AWGNChannel(avg_noise_power=1.0)(x, noise=nz)
+        want = x + nz
+        ok = y.dtype == want.dtype and tuple(y.shape) == tuple(want.shape) and bool((y == want).all())
+        ops.append(Op("snrp 1 0", "1", nontrivial=False, info={"site": "channels:AWGNChannel", "config": {"mode": "pregenerated", "dtypes": tag, "out_dtype": str(y.dtype)}}, prop_ok=ok))
+        if sdt.is_complex or not ndt.is_complex:
+            xc = x if x.is_complex() else torch.complex(x, torch.zeros_like(x))
+            csi = torch.complex(g(12, torch.float64), g(12, torch.float64)).reshape(2, 6).to(torch.complex128 if sdt in (torch.float64,) else torch.complex64)
+            y = FlatFadingChannel("rayleigh", 2, avg_noise_power=0.1)(x, csi=csi, noise=nz)
+            want = csi * xc + nz
+            ok = bool(torch.allclose(y.to(torch.complex128), want.to(torch.complex128), rtol=0, atol=1e-12 if ndt in (torch.float64, torch.complex128) and sdt not in (torch.float32, torch.complex64) else 1e-6))
+            # the added noise itself must survive in full precision: y - h.x reproduces it to the precision of the sum
+            resid = (y.to(torch.complex128) - (csi * xc).to(torch.complex128)) - nz.to(torch.complex128)
+            ops.append(Op("snrp 1 0", "1", nontrivial=False, info={"site": "channels:FlatFadingChannel", "config": {"mode": "pregenerated", "dtypes": tag, "max_resid": float(resid.abs().max())}}, prop_ok=ok))
     # ---- add_noise_for_snr
     for snr in (0.0, 10.0, 17.5):
         x = signal((2, 64), False, 2.0)
